@@ -31,6 +31,8 @@ type Case struct {
 	Depth   int    `json:"depth"`
 	Rich    bool   `json:"rich"`
 	Choices []int  `json:"choices"`
+	Kind    string `json:"kind,omitempty"` // tails family
+	K       int    `json:"k,omitempty"`
 	Source  string `json:"source,omitempty"`
 }
 
@@ -45,6 +47,8 @@ func program(c Case) (*gen.Program, string) {
 		return p.Prog, p.Placement
 	case "func":
 		return gen.Replay(c.Choices, gen.Funcs(gen.FuncCfg{Budget: c.Budget})), "func"
+	case "tails":
+		return gen.Tails(c.Kind, c.K), "tails:" + c.Kind
 	}
 	return nil, ""
 }
@@ -235,6 +239,28 @@ func main() {
 			gen.ParallelEnumerate(g, 3, func(p *gen.Program, ch []int) { visit(ch, tg.Print(p).AllText) })
 		}
 	}
+	var tails []Case
+	for _, k := range gen.TailKinds {
+		for i := 0; i < gen.TailCount(k); i++ {
+			tails = append(tails, Case{Family: "tails", Kind: k, K: i})
+		}
+	}
+	report.ParallelFor(len(tails), func(i int) {
+		c := tails[i]
+		fails, obs := runCase(c, &st)
+		atomic.AddInt64(&evals, 1)
+		prog, _ := program(c)
+		text := tg.Print(prog).AllText
+		if strings.HasSuffix(obs, "/dce-removed") {
+			distinct.Add(text)
+		}
+		r.Outcome("tails/" + obs)
+		r.Count("programs/tails", 1)
+		for _, fl := range fails {
+			c.Source = text
+			r.Violation(fl.sig, fl.what, c)
+		}
+	})
 	r.Set("function_pairs", st.fnPairs)
 	r.Set("functions_where_dce_removed_code", st.removedFns)
 	r.Set("bytes_removed_by_dce", st.removed)
